@@ -20,7 +20,9 @@ import (
 	"sync"
 	"testing"
 
+	"github.com/fabiolb/fabio/config"
 	"github.com/fabiolb/fabio/internal/verifx"
+	"github.com/fabiolb/fabio/metrics"
 )
 
 type c02Cmd struct {
@@ -112,7 +114,27 @@ func c02Use(t Table) {
 	_ = t.Dump()
 }
 
+// c02Metrics wires a metrics backend the way main does (config.Load -> metrics.Initialize ->
+// route.SetMetricsProvider): every target of every table built registers its timer with it.
+func c02Metrics(t *testing.T) {
+	m := os.Getenv("VERIF_METRICS")
+	if m == "" {
+		return
+	}
+	cfg, err := config.Load([]string{"fabio", "-metrics.target", m, "-metrics.statsd.addr", "127.0.0.1:8125",
+		"-metrics.graphite.addr", "127.0.0.1:2003", "-metrics.dogstatsd.addr", "127.0.0.1:8125", "-metrics.interval", "1h"}, nil)
+	if err != nil {
+		t.Fatalf("config.Load: %v", err)
+	}
+	p, err := metrics.Initialize(&cfg.Metrics)
+	if err != nil {
+		t.Fatalf("metrics.Initialize(%s): %v", m, err)
+	}
+	SetMetricsProvider(p)
+}
+
 func TestVerifC02Hostile(t *testing.T) {
+	c02Metrics(t)
 	var n, accepted, rejected int
 	var samples []any
 	err := verifx.EachCase("", func(raw []byte) error {
@@ -240,6 +262,54 @@ func TestVerifC02Swap(t *testing.T) {
 				tr.Add(map[string]any{"ev": "RRet", "g": g, "res": res})
 			}
 		}(g)
+	}
+	// builders: tables are built from text by several activities at once (update loop, backends validating
+	// generated commands, custom backend); each build must hand back the table of its own text
+	builds := verifx.EnvInt("VERIF_BUILDS", 40)
+	for b := 0; b < 3; b++ {
+		wg.Add(1)
+		go func(b int) {
+			defer wg.Done()
+			gc := NewGlobCache(8)
+			<-start
+			for i := 0; i < builds; i++ {
+				v, text := "A", c02TableA
+				if (i+b)%2 == 0 {
+					v, text = "B", c02TableB
+				}
+				// comments and blank lines as the KV store and the backends produce them
+				text = "# " + v + "\n\n" + strings.ReplaceAll(text, "\n", "\n\n// x\n") + "\n"
+				tr.Add(map[string]any{"ev": "BInv", "g": 100 + b, "v": v})
+				tb, err := newTableFromText(text)
+				res := v
+				if err != nil {
+					res = "error: " + err.Error()
+				} else {
+					for k, p := range probes {
+						req := &http.Request{Host: p.host, URL: &url.URL{Path: p.path}, Header: http.Header{}}
+						tg := tb.Lookup(req, "", Picker["rr"], Matcher["prefix"], gc, false)
+						if tg == nil || tg.Service != v+fmt.Sprint(k+1) {
+							res = fmt.Sprintf("mixed: probe %d answered by %v", k, tg)
+							break
+						}
+					}
+					n := 0
+					for _, rs := range tb {
+						for _, r := range rs {
+							n += len(r.Targets)
+						}
+					}
+					if res == v && n != 5 {
+						res = fmt.Sprintf("mixed: %d targets instead of 5", n)
+					}
+				}
+				if res != v {
+					verifx.Fail(map[string]any{"text": text}, map[string]any{"sub": "swap", "clause": "build-not-isolated"},
+						"a table built from the text of version %s while other builds, installs and lookups were running is not that text's table: %s", v, res)
+				}
+				tr.Add(map[string]any{"ev": "BRet", "g": 100 + b, "res": res})
+			}
+		}(b)
 	}
 	wg.Add(1)
 	go func() {
